@@ -3,6 +3,7 @@ mod c03;
 mod c11;
 mod c14;
 mod c14seg;
+mod equil;
 mod igcp;
 mod red;
 mod thermo;
@@ -18,6 +19,7 @@ fn main() {
         "c14" => c14::run(&args),
         "thermo" => thermo::run(&args),
         "igcp" => igcp::run(&args),
+        "equil" => equil::run(&args),
         "virial" => virial::run(&args),
         "zoo" => {
             for m in zoo::zoo(true) {
